@@ -64,14 +64,26 @@ Theorem C18_row_order : forall (m : pmode) (l : list triple) (g : list triple),
 Proof. exact partition_by_column_row_order. Qed.
 Print Assumptions C18_row_order.
 
-(** stability: the triples of a group that share an id are all input triples with that id, in input
-    order *)
-Theorem C18_stable : forall (m : pmode) (l : list triple) (g : list triple) (t : triple),
+(** STATEMENT ABOUT THE MODEL ONLY - not a claim about the library, and not part of property C18.
+    The model sorts each column group with a stable sort, so the triples of a group that share an id are the
+    input triples with that id in input order. The library sorts the group with [numpy.argsort] with its
+    default [kind] (quicksort / introsort), which is NOT stable for groups of more than 16 elements: the order
+    among triples with EQUAL ids of the partitioning side is unspecified there (20 triples alternating
+    B01 / A01 with volumes 0..19: model volumes [1;3;..;19;0;2;..;18], library (numpy 2.5)
+    [9;17;15;13;11;7;19;5;3;1;8;18;10;4;12;14;2;16;6;0]). The correspondence harness drops the cases in which
+    numpy's default argsort and a stable argsort differ on some group (suite pcol, "argsort-ties"), so this
+    theorem is never compared with the code on such inputs.
+    What the property claims - the groups together are the input as a multiset (C18_perm), one column per
+    group and every triple of that column in it (C18_column, C18_complete), ascending columns
+    (C18_group_order, C18_group_order_keys), ascending rows within a group (C18_row_order) - are the other
+    theorems of this file; none of them depends on this one, and all of them hold for any order among
+    triples with equal ids. *)
+Theorem C18_stable_model : forall (m : pmode) (l : list triple) (g : list triple) (t : triple),
   In g (partition_by_column m l) -> In t g ->
   filter (fun x => String.eqb (pkey m x) (pkey m t)) g =
   filter (fun x => String.eqb (pkey m x) (pkey m t)) l.
 Proof. exact partition_by_column_stable. Qed.
-Print Assumptions C18_stable.
+Print Assumptions C18_stable_model.
 
 (** on generated ids with two-digit column suffix (columns 1..99) the string order of the suffixes is
     the numeric order of the columns, equal suffix means equal column, and within a column the
@@ -101,7 +113,7 @@ Proof.
 Qed.
 Print Assumptions C18_auto.
 
-(** non-vacuity: three columns, unsorted input, a repeated source id (stability) *)
+(** non-vacuity: three columns, unsorted input, a repeated source id (their order: model only, see C18_stable_model) *)
 Example C18_example :
   partition_by_column BySource
     [("B02", "A01", 1%Q); ("A10", "A02", 2%Q); ("A01", "B01", 3%Q); ("A02", "C01", 4%Q);
